@@ -63,6 +63,60 @@ P = {
             "decoded term, and the second rendering must equal the first.",
             "trusted: vpmon/ref/decode.py; only the parser's image is judged",
             "DESIGN.md 2/C13"),
+    "C14": ("reference-substitution monitor on AliasRewriter.visit + M-immut + bijection/inverse",
+            "Exploration by runtime monitoring: random full-grammar ASTs x alias maps built from "
+            "the tree's own identifiers/paths/owner prefixes and the collision classes "
+            "(function names, named-parameter names, lambda variables, bound paths, non-members), "
+            "targets identifiers/paths/calls, with fresh and caller-supplied (used, previously "
+            "failed) lexer/parser instances; the real rewriter's output is decoded and compared "
+            "with a capture-free reference substitution; the input tree is snapshotted around "
+            "the call (M-immut); identity and bijection+inverse laws are checked.",
+            "trusted: vpmon/ref/subst.py; prefix-overlapping keys not generated",
+            "DESIGN.md 2/C14"),
+    "C16": ("online trace checker on an instrumented NodeVisitor (enter events vs reference "
+            "pre-order), per-kind handler/override harness, M-immut on every shipped visitor, "
+            "equality vs structural identity",
+            "Exploration by runtime monitoring: for random full-grammar ASTs the sequence of "
+            "visit() entries of the real base class must be the depth-first field pre-order "
+            "(identity-based, each node once); one recording handler per node kind must fire for "
+            "exactly that kind's nodes; NodeTransformer without overrides returns an equal tree "
+            "and with one replacing override equals a reference map; all 10 shipped visitors run "
+            "under the M-immut snapshot monitor (also when they raise); == is compared with "
+            "decoded-term identity on re-parsed twins, deep copies and single-point mutations.",
+            "trusted: dataclasses.fields order as the reference traversal order; decode.py",
+            "DESIGN.md 2/C16"),
+    "C17": ("reference re-rooting monitor on expression_relative_to_identifier + M-immut",
+            "Exploration by runtime monitoring: random full-grammar expressions with hostile "
+            "placements of the variable name (path root at depth 1..4, inner segment, attribute "
+            "name, namespaced identifier, plain field, inside calls/lists/named parameters/"
+            "nested lambdas) are made relative by the real function; the decoded result is "
+            "compared with a reference re-rooting; input snapshot compared around the call.",
+            "trusted: vpmon/ref/subst.py::reroot_ref; same-name re-binding lambdas excluded",
+            "DESIGN.md 2/C17"),
+    "C18": ("icontract postcondition on typing.infer_type (M-infer) + typed-generator oracle + "
+            "negative typecheck matrix through the real Django/SQLAlchemy visitors",
+            "Exploration by runtime monitoring: every built-in function with arguments of every "
+            "admissible kind nested to depth 3 from a generator that knows each term's type; "
+            "infer_type of every sub-node must be None or the class of the reference static "
+            "type, typecheck against the actual type never raises; the (function x argument "
+            "position x 12 literal kinds x 3 backends) negative matrix must raise "
+            "ArgumentTypeException exactly for non-string literals.",
+            "trusted: vpmon/ref/types.py + functable.RETURNS (from the specification)",
+            "DESIGN.md 2/C18"),
+    "C20": ("offline history checker (outcome of every call vs fresh-instance model) over shared/"
+            "crossed/abandoned/interleaved/nested/threaded histories and hash-seed x import-order "
+            "child processes",
+            "Exploration by runtime monitoring: histories of 5..50 calls on shared and crossed "
+            "(lexer, parser) instances mixing valid inputs and all error classes, abandoned and "
+            "step-interleaved tokenize() generators, parses nested inside another parse's token "
+            "pulls, threads with own instances under switch interval 1e-6 (thorough: seeded "
+            "sleep(0) injection at LINE events inside the LR loop, distinct hand-off points "
+            "counted), fresh child processes per PYTHONHASHSEED x import order comparing outcome "
+            "digests over a 600-string corpus, AliasRewriter on used instances. Every recorded "
+            "outcome (AST fingerprint or exception class+message) must equal the model.",
+            "trusted: model = fresh ODataLexer/ODataParser on the same input; sharing one lexer "
+            "between threads is not claimed",
+            "DESIGN.md 2/C20"),
 }
 
 NOT_BUILT_REASON = "check not built yet in this round (design in DESIGN.md section 2); not claimed"
